@@ -170,7 +170,7 @@ func ruleST3(c *Ctx) {
 
 func init() {
 	register(&Rule{ID: "ST4", Min: 1, Run: ruleST4,
-		Doc: "discovered-dir-is-a-.ergo-component: every directory the upward search hands back is filepath.Join(<dir>, \".ergo\"), or a value whose last path component was compared equal to \".ergo\" (filepath.Base(v) == \".ergo\"); a suffix or substring test accepts `site.ergo` as the store and the same project then has two stores depending on where a command is started"})
+		Doc: "discovered-dir-is-a-.ergo-component: every directory the upward search hands back is filepath.Join(<dir>, \".ergo\"), or a value whose last path component was compared equal to \".ergo\" (filepath.Base(v) == \".ergo\"); a suffix or substring test accepts `site.ergo` as the store and the same project then has two stores depending on where a command is started; and the walk probes every level, the file-system root included: every way out of the loop of the walk - found, error, no parent left - lies behind the probe of the directory in hand (walk-probes-every-level)"})
 	register(&Rule{ID: "OU10", Min: 1, Run: ruleOU10,
 		Doc: "read-path-rewrites-only-blank-titles: outside the per-event cases of replay, the read path stores into Task.Title / Task.Body only where the item's title was tested blank (the legacy migration); any wider condition rewrites text the user supplied on every read, and compact makes it permanent"})
 }
@@ -181,6 +181,33 @@ func ruleST4(c *Ctx) {
 		return
 	}
 	n := 0
+	var isErgoJoin func(x ssa.Value, d int) bool
+	isErgoJoin = func(x ssa.Value, d int) bool {
+		cl, isCall := resolve(x).(*ssa.Call)
+		if !isCall || d > 2 {
+			return false
+		}
+		if calleeFullName(&cl.Call) == "path/filepath.Join" {
+			el := variadicElems(cl.Call.Args)
+			if len(el) >= 2 {
+				if s, isC := constString(el[len(el)-1]); isC && s == ".ergo" {
+					return true
+				}
+			}
+			return false
+		}
+		// a helper that does the joining (storeDirIn(dir) = filepath.Join(dir, dataDirName))
+		if h := calleeOf(&cl.Call); h != nil && c.InModule(h) && h.Blocks != nil {
+			rets := returnsOf(h)
+			for _, hr := range rets {
+				if len(hr.Results) != 1 || !isErgoJoin(returnedValue(hr, 0), d+1) {
+					return false
+				}
+			}
+			return len(rets) > 0
+		}
+		return false
+	}
 	for _, r := range c.nonFailingReturns(red) {
 		if len(r.Results) < 1 {
 			continue
@@ -188,33 +215,6 @@ func ruleST4(c *Ctx) {
 		n++
 		v := resolve(returnedValue(r, 0))
 		ok, how := false, ""
-		var isErgoJoin func(x ssa.Value, d int) bool
-		isErgoJoin = func(x ssa.Value, d int) bool {
-			cl, isCall := resolve(x).(*ssa.Call)
-			if !isCall || d > 2 {
-				return false
-			}
-			if calleeFullName(&cl.Call) == "path/filepath.Join" {
-				el := variadicElems(cl.Call.Args)
-				if len(el) >= 2 {
-					if s, isC := constString(el[len(el)-1]); isC && s == ".ergo" {
-						return true
-					}
-				}
-				return false
-			}
-			// a helper that does the joining (storeDirIn(dir) = filepath.Join(dir, dataDirName))
-			if h := calleeOf(&cl.Call); h != nil && c.InModule(h) && h.Blocks != nil {
-				rets := returnsOf(h)
-				for _, hr := range rets {
-					if len(hr.Results) != 1 || !isErgoJoin(returnedValue(hr, 0), d+1) {
-						return false
-					}
-				}
-				return len(rets) > 0
-			}
-			return false
-		}
 		if isErgoJoin(v, 0) {
 			ok, how = true, "Join(dir, \".ergo\")"
 		}
@@ -236,6 +236,48 @@ func ruleST4(c *Ctx) {
 	}
 	if n == 0 {
 		c.bad(c.Name(red), "returned-dir#0", c.FnPos(red), "the upward search has no successful return")
+	}
+	// the walk probes every level, the last one (the file-system root) included: whatever leaves the loop of the walk -
+	// found, error, or "no parent left" - does so after the directory in hand was probed. A walk whose "no parent left"
+	// test sits in the loop condition, ahead of the probe, never looks at the root: a store at /.ergo (a container with
+	// WORKDIR /, a chroot) is found from some spellings of the directory and not from others
+	np := 0
+	for _, call := range callsIn(red) {
+		if !inCycle(call.Block()) {
+			continue
+		}
+		probes := false
+		for _, a := range call.Common().Args {
+			if isErgoJoin(a, 0) {
+				probes = true
+			}
+		}
+		nme := calleeFullName(call.Common())
+		if !probes || nme == "path/filepath.Join" {
+			continue
+		}
+		np++
+		pb := call.Block()
+		fromP := reach(pb, nil, nil)
+		unprobed := ""
+		for _, b := range red.Blocks {
+			if !fromP[b] || !reach(b, nil, nil)[pb] {
+				continue // not in the loop
+			}
+			for _, sblk := range b.Succs {
+				if fromP[sblk] && reach(sblk, nil, nil)[pb] {
+					continue // stays in the loop
+				}
+				if !pb.Dominates(b) {
+					unprobed = c.Pos(lastPos(b))
+				}
+			}
+		}
+		c.check(unprobed == "", c.Name(red), fmt.Sprintf("walk-probes-every-level#%d", np), c.Pos(call.Pos()), "every way out of the upward walk comes after the probe of the directory in hand",
+			"the upward walk can be left at "+unprobed+" without the directory in hand having been probed: the last level (the file-system root) is never looked at, so a store at /.ergo is found for some spellings of the start directory and missed for others")
+	}
+	if np == 0 {
+		c.unk(c.Name(red), "walk-probes-every-level#0", c.FnPos(red), "no probe of <dir>/.ergo inside a loop found in the upward search")
 	}
 }
 
